@@ -43,7 +43,7 @@ func cellMatches(c Cell, v any) bool {
 		return v == nil
 	}
 	if v == nil {
-		return false
+		return c.OrNull
 	}
 	switch c.V.K {
 	case Float:
